@@ -55,7 +55,8 @@ type Config struct {
 	SeparateValueDir    bool     `json:"separate_value_dir"`
 	Groups              []string `json:"groups"`    // enabled schedule-point roles; nil = all
 	SkipSeed            uint64   `json:"skip_seed"` // deterministic skiplist heights
-	Prefill             int      `json:"prefill"`   // percent of MemTableSize written (through the model) before scheduling starts
+	PrefillAllKeys      bool     `json:"prefill_all_keys,omitempty"`
+	Prefill             int      `json:"prefill"` // percent of MemTableSize written (through the model) before scheduling starts
 }
 
 // Op is one client operation.
